@@ -605,19 +605,22 @@ def main(tier, seed):
 
     selftest = {}
     for t in tcases:
-        if t["kind"] == "scan" and t["id"].startswith("shipped|") and len(t["obs"]) > 2 and "scan" not in selftest:
+        # corruptions that no implementation behaviour can make right
+        if t["kind"] == "scan" and t["id"].startswith("shipped|") and len(t["obs"]) > 3 and "scan" not in selftest:
             u = copy.deepcopy(t)
-            u["id"], u["obs"] = "selftest|scan", t["obs"][1:]
+            u["id"], u["obs"] = "selftest|scan", t["obs"][:1] + t["obs"][2:]       # a hole: never a kernel
             selftest["scan"] = (u, "kernel")
-        if t["kind"] == "lines" and len(t["obs"]) > 1 and "lines" not in selftest:
+        if t["kind"] == "lines" and "lines" not in selftest:
             u = copy.deepcopy(t)
-            u["id"], u["obs"] = "selftest|lines", t["obs"][:-1]
+            u["id"], u["obs"] = "selftest|lines", t["obs"] + [max(t["present"]) + 1000]  # a line the file does not have
             selftest["lines"] = (u, "lines")
-        if t["kind"] == "equal" and len(t["vs"]) > 1 and t["vs"][1]["rows"] and "equal" not in selftest:
+        if t["kind"] == "equal" and "equal" not in selftest:
             u = copy.deepcopy(t)
             u["id"] = "selftest|equal"
-            u["vs"][1]["rows"][0][0] += 1
-            selftest["equal"] = (u, "rows")
+            w = copy.deepcopy(u["vs"][0])
+            w["name"], w["cp"] = "corrupted", w["cp"] + 1                            # same instructions, other CP
+            u["vs"] = [u["vs"][0], w]
+            selftest["equal"] = (u, "cp")
     tcases += [u for u, _ in selftest.values()]
     # short ids: TLC wraps long printed values
     short = {}
